@@ -282,8 +282,8 @@ def run(tier: str, rng: random.Random, proof_ok: bool) -> dict:
     for vt, alpha in fixed:
         for k in range(1, L + 1):
             hs = list(itertools.product([(m, x) for m in ("sync", "async") for x in alpha], repeat=k))
-            if len(hs) > (60 if tier == "quick" else 1500):
-                hs = rng.sample(hs, 60 if tier == "quick" else 1500)
+            if len(hs) > (60 if tier == "quick" else 400):
+                hs = rng.sample(hs, 60 if tier == "quick" else 400)
             for ops in hs:
                 n_hist += 1
                 try:
